@@ -57,11 +57,16 @@ TLen(t, sz) ==
     CASE t.op = "var"   -> sz[t.v]
       [] t.op = "const" -> Len(t.c)
       [] t.op \in {"neg", "smul", "abs"} -> TLen(t.a, sz)
-      [] t.op \in {"add", "sub"} -> Common(<<TLen(t.a, sz), TLen(t.b, sz)>>)
+      \* a scalar term is a number, a 1 by 1 DENSE matrix, or a variable / function of length 1: a sparse 1 by 1 constant is not broadcast
+      [] t.op \in {"add", "sub"} ->
+            LET la == TLen(t.a, sz)  lb == TLen(t.b, sz)
+                spa == t.a.op = "const" /\ t.a.sp /\ la = 1
+                spb == t.b.op = "const" /\ t.b.sp /\ lb = 1
+            IN  IF (spa /\ lb # 1) \/ (spb /\ la # 1) THEN ErrLen ELSE Common(<<la, lb>>)
       [] t.op = "mmul"  -> LET la == TLen(t.a, sz) IN
                            IF la = ErrLen THEN ErrLen
                            ELSE IF Len(t.M[1]) = la THEN Len(t.M)              \* (r x c) times a vector of length c
-                           ELSE IF Len(t.M) = 1 /\ Len(t.M[1]) = 1 THEN la      \* a 1 by 1 matrix is a scalar
+                           ELSE IF Len(t.M) = 1 /\ Len(t.M[1]) = 1 /\ ~t.sp THEN la      \* a 1 by 1 DENSE matrix is a scalar
                            ELSE ErrLen
       [] t.op = "idx"   -> LET la == TLen(t.a, sz) IN
                            IF la = ErrLen THEN ErrLen
@@ -72,23 +77,24 @@ TLen(t, sz) ==
 \* curvature: 0 affine, 1 convex, -1 concave, 9 not allowed
 Flip(c) == IF c = 9 THEN 9 ELSE -c
 Plus(c1, c2) == IF c1 = 9 \/ c2 = 9 THEN 9 ELSE IF c1 = 0 THEN c2 ELSE IF c2 = 0 THEN c1 ELSE IF c1 = c2 THEN c1 ELSE 9
-RECURSIVE Curv(_)
-Curv(t) ==
+RECURSIVE Curv(_, _)
+Curv(t, sz) ==
     CASE t.op \in {"var", "const"} -> 0
-      [] t.op = "neg"  -> Flip(Curv(t.a))
-      [] t.op = "add"  -> Plus(Curv(t.a), Curv(t.b))
-      [] t.op = "sub"  -> Plus(Curv(t.a), Flip(Curv(t.b)))
-      [] t.op = "smul" -> LET c == Curv(t.a) IN IF c = 0 \/ c = 9 THEN c ELSE IF t.k > 0 THEN c ELSE IF t.k < 0 THEN -c ELSE 9
-      [] t.op = "mmul" -> LET c == Curv(t.a) IN
+      [] t.op = "neg"  -> Flip(Curv(t.a, sz))
+      [] t.op = "add"  -> Plus(Curv(t.a, sz), Curv(t.b, sz))
+      [] t.op = "sub"  -> Plus(Curv(t.a, sz), Flip(Curv(t.b, sz)))
+      [] t.op = "smul" -> LET c == Curv(t.a, sz) IN IF c = 0 \/ c = 9 THEN c ELSE IF t.k > 0 THEN c ELSE IF t.k < 0 THEN -c ELSE 9
+      [] t.op = "mmul" -> LET c == Curv(t.a, sz) IN
                           IF c = 0 THEN 0
                           ELSE IF c # 9 /\ Len(t.M) = 1 /\ Len(t.M[1]) = 1       \* PWL functions: only 1 by 1 matrices (= scalars)
                                THEN (IF t.M[1][1] > 0 THEN c ELSE IF t.M[1][1] < 0 THEN -c ELSE 9) ELSE 9
-      [] t.op \in {"idx", "sum"} -> Curv(t.a)
-      [] t.op = "abs"  -> IF Curv(t.a) = 0 THEN 1 ELSE 9
-      [] t.op = "max"  -> IF \A i \in DOMAIN t.args : Curv(t.args[i]) \in {0, 1} THEN 1 ELSE 9
-      [] t.op = "min"  -> IF \A i \in DOMAIN t.args : Curv(t.args[i]) \in {0, -1} THEN -1 ELSE 9
-      [] t.op = "max1" -> IF Curv(t.a) \in {0, 1} THEN 1 ELSE 9
-      [] t.op = "min1" -> IF Curv(t.a) \in {0, -1} THEN -1 ELSE 9
+      [] t.op \in {"idx", "sum"} -> Curv(t.a, sz)
+      [] t.op = "abs"  -> IF Curv(t.a, sz) = 0 THEN 1 ELSE 9
+      [] t.op = "max"  -> IF \A i \in DOMAIN t.args : Curv(t.args[i], sz) \in {0, 1} THEN 1 ELSE 9
+      [] t.op = "min"  -> IF \A i \in DOMAIN t.args : Curv(t.args[i], sz) \in {0, -1} THEN -1 ELSE 9
+      \* max(u) / min(u) over the components; for len(u) = 1 it is u itself ("max(s) with len(s) = 1 returns s[0]")
+      [] t.op = "max1" -> IF TLen(t.a, sz) = 1 THEN Curv(t.a, sz) ELSE IF Curv(t.a, sz) \in {0, 1} THEN 1 ELSE 9
+      [] t.op = "min1" -> IF TLen(t.a, sz) = 1 THEN Curv(t.a, sz) ELSE IF Curv(t.a, sz) \in {0, -1} THEN -1 ELSE 9
 
 Bcast(v, L) == IF Len(v) = L THEN v ELSE [i \in 1..L |-> v[1]]
 RECURSIVE Eval(_, _)
@@ -119,7 +125,7 @@ Eval(t, e) ==
 \* is the expression defined at all?  (dimensions match and the combination is convex or concave)
 RECURSIVE SubOK(_, _)
 SubOK(t, sz) ==
-    /\ TLen(t, sz) # ErrLen /\ Curv(t) # 9
+    /\ TLen(t, sz) # ErrLen /\ Curv(t, sz) # 9
     /\ CASE t.op \in {"var", "const"} -> TRUE
          [] t.op \in {"neg", "smul", "abs", "mmul", "idx", "sum", "max1", "min1"} -> SubOK(t.a, sz)
          [] t.op \in {"add", "sub"} -> SubOK(t.a, sz) /\ SubOK(t.b, sz)
